@@ -404,8 +404,14 @@ def run(ctx):
         a = Phase(float(rng.randint(-2 ** rng.choice([5, 20, 40]), 2 ** rng.choice([5, 20, 40]))), rand_frac(rng))
         d = rng.choice([0.3, 1.0, 0.125, 7.5, 1e3, 1 / 3, 2.0])
         dq = rng.choice([d * u.cycle, Angle(d, u.cycle), Phase(d)])
+        other_unit = None
+        if d in (1.0, 0.125, 7.5, 2.0) and rng.random() < 0.4:
+            # the same divisor written in another angular unit (exactly: 360 deg, 21600 arcmin, 24 hourangle per cycle)
+            other_unit = rng.choice([u.deg, u.arcmin, u.hourangle])
+            dq = (d * {u.deg: 360.0, u.arcmin: 21600.0, u.hourangle: 24.0}[other_unit]) * other_unit
+            ctx.count('divisor_unit:' + str(other_unit))
         which = rng.choice(['floordiv', 'mod', 'divmod'])
-        inp = dict(op=which, a=repr(a), d=d, dkind=type(dq).__name__)
+        inp = dict(op=which, a=repr(a), d=d, dkind=type(dq).__name__, unit=str(getattr(dq, 'unit', '')))
         ctx.seen(inp); ctx.count('op:' + which)
         try:
             if which == 'floordiv':
@@ -420,7 +426,8 @@ def run(ctx):
         # (T) the statement-by-statement model of this branch, bit for bit
         ql = 'None' if q is None else '(Some %s)' % fl(float(np.asarray(getattr(q, 'value', q))))
         rl = 'None' if not isinstance(r, Phase) else '(Some %s)' % ph_lit(r)
-        add_item(f'chk_divmod {ph_lit(a)} {fl(d)} {ql} {rl}', inp, [ql, rl])
+        if other_unit is None:
+            add_item(f'chk_divmod {ph_lit(a)} {fl(d)} {ql} {rl}', inp, [ql, rl])
         ea, ed = exact(a)[0], Fr(d)
         if q is not None:
             qv = Fr(float(np.asarray(getattr(q, 'value', q))))
